@@ -14,7 +14,7 @@ Not decided: behaviour of user-supplied policies; end-to-end frame counts.
 from ..inline import inline_view
 from ..dataflow import Dataflow, adt_of_type
 from ..mir import AnchorLost
-from ..util import df_of, in_set, uses_of_local
+from ..util import df_of, in_set, uses_of_local, backward_slice
 
 TRAIT = "scylla::policies::retry::retry_policy::RetrySession"
 DECISION = "scylla::policies::retry::retry_policy::RetryDecision"
@@ -290,6 +290,38 @@ def r5(ctx, facts):
                         r.instance("RequestExecutionParams.is_idempotent@" + _fn(body.path), ok, "operand is " + txt, body.stmt_span(st))
 
 
+def r5b(ctx, facts):
+    r = ctx.rule("R5b", "every `is_idempotent` field in the driver is filled from a statement's flag (or another such field), never from a constant", floor=3)
+    seen = 0
+    for body in facts.bodies.mentioning('"is_idempotent"'):
+        if body.crate != "scylla":
+            continue
+        for bb in body.live_blocks:
+            for st in body.stmts(bb):
+                if not (st[0] == "A" and st[2][0] == "agg" and st[2][1][0] == "adt" and "is_idempotent" in (st[2][1][4] or [])):
+                    continue
+                adt = st[2][1][1]
+                if adt.endswith("::RequestInfo") or adt.endswith("RequestExecutionParams"):
+                    continue   # rule R5
+                op = st[2][2][st[2][1][4].index("is_idempotent")]
+                seen += 1
+                key = "%s.is_idempotent@%s" % (adt.split("::")[-1], _fn(body.path))
+                if op[0] == "k":
+                    # defaults of configuration structs start as `false` (the safe side); `true` is never a legitimate constant
+                    v = str(op[3])
+                    r.instance(key, v in ("0", "false"), "the field is the constant %s: a request would be retried / speculated on as if the caller had declared it idempotent" % v, body.stmt_span(st))
+                else:
+                    d = _mini(body, facts)
+                    txt = d.fmt_expr(d.expr_of_operand(op))
+                    locs, calls, _ = backward_slice(body, op)
+                    from .c20 import slice_fields
+                    ok = "idempotent" in txt.lower() or any("idempotent" in (c.name or "").lower() for c in calls) or any("idempotent" in (body.local_name(l) or "").lower() for l in locs) \
+                        or "is_idempotent" in slice_fields(body, op) or any((c.decl or "") == "core::default::Default::default" for c in calls)
+                    r.instance(key, ok, "operand is %s: it must come from the statement's own idempotence flag" % txt, body.stmt_span(st))
+    if seen == 0:
+        raise AnchorLost("no struct with an `is_idempotent` field is built in the driver")
+
+
 _mini_cache = {}
 
 
@@ -394,6 +426,10 @@ def check(ctx):
         r6(ctx, facts)
     except AnchorLost as ex:
         ctx.rule("R6x", "session lifetime anchors").fail("anchor-lost", str(ex))
+    try:
+        r5b(ctx, facts)
+    except AnchorLost as ex:
+        ctx.rule("R5bx", "is_idempotent field anchors").fail("anchor-lost", str(ex))
     ctx.rules  # R1-R3 registered inside
     try:
         r4(ctx, facts)
